@@ -38,6 +38,7 @@ def run(tier: str, seed: int, rep: Report, model: Model) -> dict:
     rep.rule = ("ordered field lists (optional fields, markers, expressions, plain fields) with values that are arrays of the declared library or "
                 "None for optional fields, conforming or with one / several faults, rendered in the four forms with shuffled keyword order; "
                 "distinct = distinct (fields, values); non-trivial = at least two annotated fields")
+    rep.rule += '; plus field lists with tuple-typed fields rendered as function, dataclass and NamedTuple'
     bases = []
     tries = 0
     while len(bases) < n and tries < n * 6:
